@@ -12,6 +12,7 @@ mod oracle;
 mod prng;
 mod props;
 mod simenv;
+mod udiff_oracle;
 
 use std::path::{Path, PathBuf};
 use std::process::{Command, ExitCode};
@@ -232,6 +233,18 @@ macro_rules! dispatch {
                 let $p = &props::c10::C10;
                 $body
             }
+            "C05" => {
+                let $p = &props::c05::C05;
+                $body
+            }
+            "C16" => {
+                let $p = &props::c16::C16;
+                $body
+            }
+            "C20" => {
+                let $p = &props::c20::C20;
+                $body
+            }
             "C07" => {
                 let $p = &props::c07::C07;
                 $body
@@ -248,7 +261,7 @@ macro_rules! dispatch {
     };
 }
 
-pub const CLAIMED: [&str; 5] = ["C02", "C07", "C08", "C09", "C10"];
+pub const CLAIMED: [&str; 8] = ["C02", "C05", "C07", "C08", "C09", "C10", "C16", "C20"];
 
 fn main() -> ExitCode {
     engine::install_panic_hook();
